@@ -121,6 +121,9 @@ class CallMixin:
             f2 = Frame(fi, closure=closure, defcls=fi.cls)
             self.bind(fi.node.args, args, kwargs, f2, n, fi)
             return ('cm', fi, f2)
+        w = self.contract.opts.get('watch', {}).get(key)
+        if w is not None:
+            self.run.event(w, lineno=getattr(n, 'lineno', None), args=list(args), kwargs=dict(kwargs), heap=self.heap.snapshot(), index=len(self.run.events))
         cs = [c for c in self.eng.registry.get(key) if not c.opts.get('verify_only')]
         use_contract = bool(cs) and key not in self.contract.inline and not force_inline
         if key == self.top_fi.key and self.depth == 0 and fr is None:
